@@ -347,6 +347,15 @@ CtxCancelledBeforeStopFn == sv.stopCtx \in {"na", "done"}
 StopFnGetsRunError == sv.stopArg \in {"na", "none", "erun"} /\ (sv.stopArg = "erun" <=> ("stop" \in Range(sv.fnlog) /\ "erun" \in Range(sv.errs)))
 \* a terminal started service has cancelled its context
 ContextReleased == (sv.state \in Terminal /\ sv.cancelFn = "set") => sv.ctxDone
+\* StartAsync is ONE critical section: the service context exists from the moment the service is observably
+\* Starting ("before service enters Starting state, there is no context" - and afterwards there is one), and the
+\* main goroutine never runs without it.  Bound to the code by observers that overlap StartAsync (see harness/c17:
+\* the parent context handed to StartAsync is the probe point - context.WithCancel calls its Done method).
+ContextOnceStarted ==
+  /\ sv.state \in {"Starting", "Running", "Stopping", "Failed"} => sv.cancelFn = "set"
+  /\ sv.state = "New" => sv.cancelFn = "nil" /\ sv.mpc = "none"
+  /\ sv.mpc # "none" => sv.cancelFn = "set"
+  /\ (sv.state = "Terminated" /\ sv.cancelFn = "nil") => Ev("Terminated", "New", "none") \in Range(sv.thist)
 
 \* waiters: the channels are closed exactly when the state is reached or can no longer be reached
 WaitersExact ==
